@@ -80,6 +80,44 @@ def move_assign_oracle(line, out):
     return None
 
 
+def post_state_oracle(kind):
+    """what an assignment must leave in its target, read off the operation itself"""
+    val = 'S' if kind in ('opt', 'ent') else 'V'
+
+    def oracle(line, out):
+        v = move_assign_oracle(line, out)
+        if v:
+            return v
+        ops = line.split(' ')[1].split(',')
+        raw = out.split(' ')
+        i = 0
+        prev = ['X', 'X', 'X']
+        for op in ops:
+            skipped = raw[i] == 'skip'
+            tok = raw[i + 1] if skipped else raw[i]
+            i += 2 if skipped else 1
+            st = tok.split('|', 1)[1].split(';')
+            if not skipped:
+                a = op[1:].split(':')
+                t = int(a[0])
+                want = None
+                if op[0] in 'vwuVMI':
+                    want = val + a[1]
+                elif op[0] in 'ecN':
+                    want = 'E'
+                elif op[0] in 'rE':
+                    want = 'E' if int(a[1]) == 0 else 'R' + a[1]
+                elif op[0] in 'aC' and int(a[1]) != t:
+                    want = prev[int(a[1])]
+                elif op[0] in 'mX' and int(a[1]) != t:
+                    want = prev[int(a[1])]
+                if want is not None and st[t] != want:
+                    return 'after %s object %d is %s; the operation must leave %s' % (op, t, st[t], want)
+            prev = st
+        return None
+    return oracle
+
+
 def run_histories(ctx, pool, cases, alive_marks, stream, what, extra_oracle=None):
     lines = ['%s %s' % (k, ','.join(s)) for k, s in cases]
     ho = run_objs(pool, lines)
@@ -151,14 +189,14 @@ def check_C13(ctx):
     rnd = opt_alphabet([0, 1, 2], [1, 2, 3], True)
     cases = histories(ctx, alpha, setups, rnd, ['opt', 'ent'], 2 if ctx.quick else 3, 1500 if ctx.quick else 40000, 16 if ctx.quick else 40)
     n1 = run_histories(ctx, pool, cases, 'S', 'optional-histories',
-                       'Optional<T>/Entry<T,Id> state and element lifetime after every step = model o_step', extra_oracle=move_assign_oracle)
+                       'Optional<T>/Entry<T,Id> state and element lifetime after every step = model o_step', extra_oracle=post_state_oracle('opt'))
     # Result / Status
     rsetups = [[], ['N0'], ['V0:5'], ['E0:2'], ['V0:5', 'E1:1'], ['V0:5', 'V1:6'], ['E0:1', 'N1'], ['V0:5', 'E1:3', 'N2']]
     ralpha = res_alphabet([0, 1], [7], [0, 2], False) + ['a0:2', 'm0:2', 'm2:0', 'w1:8', 'M2:4', 'r2:1']
     rrnd = res_alphabet([0, 1, 2], [1, 2, 3], [0, 1, 2, 3], True)
     cases = histories(ctx, ralpha, rsetups, rrnd, ['res', 'sta'], 2 if ctx.quick else 3, 1500 if ctx.quick else 40000, 16 if ctx.quick else 40)
     n2 = run_histories(ctx, pool, cases, 'V', 'result-histories',
-                       'Result<E,T>/Status<T> state and element lifetime after every step = model r_step', extra_oracle=move_assign_oracle)
+                       'Result<E,T>/Status<T> state and element lifetime after every step = model r_step', extra_oracle=post_state_oracle('res'))
     # the 18 comparison operators over all pairs of operand states, against the order itself
     ho = run_objs(pool, ['cmp'])[0]
     mo = run_driver(pool, ['cmp'])[0]
@@ -697,7 +735,8 @@ def check_C19(ctx):
             k = rng.random()
             s = rng.randrange(6)
             if k < 0.12: ops.append('N%d:%d' % (s, rng.randrange(1, 1000)))
-            elif k < 0.24: ops.append('I%d:%d' % (s, rng.randrange(1, 1000)))
+            elif k < 0.20: ops.append('I%d:%d' % (s, rng.randrange(1, 1000)))
+            elif k < 0.26: ops.append('J%d:%d' % (s, rng.randrange(1, 1000)))
             elif k < 0.50: ops.append('G%d' % s)
             elif k < 0.60: ops.append('S%d:%d' % (s, rng.randrange(1, 1000)))
             elif k < 0.68: ops.append('C%d' % s)
@@ -730,6 +769,30 @@ def check_C19(ctx):
                         {'case': line, 'output': o})
             continue
         tl = ';'.join(','.join(x for x in t.split(',') if x.startswith('G:')) or '-' for t in f['conc'].split(';'))
+        # what the property itself says each thread must see: its own cells only, first initialisation wins until Clear
+        want = []
+        for sc in line.split(' ')[2].split(';'):
+            cells, obs = {}, []
+            for op in sc.split(','):
+                if not op or op[0] not in 'NIJGSC':
+                    continue
+                a = op[1:].split(':')
+                sl = int(a[0])
+                if op[0] in 'NIJ':
+                    cells.setdefault(sl, int(a[1]))
+                elif op[0] == 'S':
+                    if sl in cells:
+                        cells[sl] = int(a[1])
+                elif op[0] == 'C':
+                    cells.pop(sl, None)
+                else:
+                    obs.append('G:%s' % (cells[sl] if sl in cells else 'none'))
+            want.append(','.join(obs) or '-')
+        if tl != ';'.join(want):
+            i = next(k for k in range(len(want)) if tl.split(';')[k] != want[k])
+            ctx.violate('threadlocal', 'thread %d read %s from its ThreadLocal cells; with per-thread, per-(T,Slot) cells and first-initialisation-wins it must read %s; %s' %
+                        (i, tl.split(';')[i][:200], want[i][:200], line[:200]), {'case': line, 'output': o, 'expected': ';'.join(want)})
+            continue
         if not m.startswith('DRIVER') and m != 'tl=' + tl:
             broken.append({'case': line, 'hraw': 'tl=' + tl, 'mraw': m})
     report_broken(ctx, broken, 'threadlocal', 'ThreadLocal<T,Slot>::Get() observations of every thread = model trun / view')
